@@ -199,6 +199,14 @@ def run_lossmin(case, qt, empi, detailed=True):
     from quara.protocol.qtomography.standard.loss_minimization_estimator import LossMinimizationEstimator
 
     loss, loss_opt = make_loss(case["loss"], qt.num_variables)
+    ws = float(case.get("wscale", 1.0))
+    if ws != 1.0:
+        # the same loss times a common factor (custom weights ws * identity): same minimiser, other magnitudes - what
+        # shot-count weights or inverse-covariance weights of large samples give
+        if case["loss"].startswith("se"):
+            loss_opt = type(loss_opt)("custom", weights=[ws * np.eye(len(e[1])) for e in empi])
+        else:
+            loss_opt = type(loss_opt)("custom", weights=[ws for _ in empi])
     algo, algo_opt = make_algo(
         case["algo"],
         on_algo_eq_constraint=case["constraints"][0],
@@ -355,6 +363,10 @@ def recovery_case(draw, tier):
     c["num_history"] = 1
     c["constraints"] = [True, True]
     c["max_iter"] = 2000 if tier == "quick" else 5000
+    # (large factors make every step project a far point: restricted to state tomography, whose projection converges fast)
+    c["wscale"] = draw(st.sampled_from([1.0, 1e2, 1e3, 1e4, 1e6])) if c["tomo"] == "qst" else 1.0
+    if c["wscale"] != 1.0:
+        c["algo_eps"] = 1e-14 * c["wscale"]  # the loss-difference threshold scales with the loss: same stopping point
     return c
 
 
@@ -367,7 +379,7 @@ def check_recovery(case, ctx):
     z = tomo.estimate_stacked(res.estimated_qoperation)
     x = tomo.stacked_true(case, info)
     boundary = _is_boundary(case, info)
-    ctx.label(case["tomo"], f"flag:{case['flag']}", case["loss"], "boundary" if boundary else "interior")
+    ctx.label(case["tomo"], f"flag:{case['flag']}", case["loss"], "boundary" if boundary else "interior", f"wscale:{case.get('wscale', 1.0):g}")
     if det.k >= case["max_iter"] or proj_cap_hit(ctx):
         ctx.skip("max-iteration")
         return
